@@ -20,6 +20,7 @@ import TshVerif.Lemmas.SemBStraight
 import TshVerif.Lemmas.SemBCtl
 import TshVerif.Lemmas.SemBLoop
 import TshVerif.Lemmas.SemBDet
+import TshVerif.Lemmas.SemBLabels
 
 namespace Tsh.C05S
 open Tsh Tsh.Tr Tsh.Batch Tsh.Sem Tsh.SemB
@@ -121,7 +122,7 @@ theorem batch_preserves_conditional_semantics_partial (p : Program) (hf : Src.fr
       have : programStart ({} : St) = .ok ((), s1) := h1
       simp [programStart, addStartLine, Tr.modify, bind] at this
       rw [← this]; exact ⟨rfl, rfl, rfl⟩
-    obtain ⟨cmds, n, ad, sim⟩ := stmtsT_sem none p hf hn s1 s2 hs1.1 h2
+    obtain ⟨cmds, n, ad, _, sim⟩ := stmtsT_sem none p hf hn s1 s2 hs1.1 h2
     refine ⟨s, cmds, ?_, ?_⟩
     · rw [← hc, e3]
       have hcode : s2.globalCode.reverse = flats none cmds := by
@@ -144,6 +145,81 @@ theorem batch_preserves_conditional_semantics_partial (p : Program) (hf : Src.fr
 
 /-! ### the whole scalar fragment: loops, break, continue -/
 
+/-- the common core of the theorems below: the tree, that it is well-formed (its simple lines are not structural), that every
+    construct label of the script leads to the lines behind its definition, and what the tree does -/
+theorem scalar_core (p : Program) (hf : Src.fragStmts p = true) (hn : simpleLoopsStmts p = true)
+    (ls : List BLine) (hc : compile p = .ok ls) :
+    ∃ (st : St) (cmds : List BCmd),
+      ls = st.startCode.reverse ++ helperLines st ++ flats none cmds ++ [.label "end", .raw "endlocal & exit /B %_e%"] ∧
+      wfBs cmds = true ∧ Resolves ls ∧
+      ∀ fuel o out, Src32.runProgram fuel p = some (o, out) →
+        ∃ c' : Cfg, ExecBs cmds ⟨startStore, []⟩ o c' ∧ c'.out = out ∧ (o = .normal → c'.ρ "_e" = "0") := by
+  unfold compile at hc
+  split at hc
+  · rename_i u s hrun
+    simp only [Res.ok.injEq] at hc
+    have hrun0 := hrun
+    unfold evalProgram at hrun
+    obtain ⟨_, s1, h1, hrun⟩ := bindB_ok hrun
+    obtain ⟨_, s2, h2, h3⟩ := bindB_ok hrun
+    have e3 : s = s2 := by
+      have : (pure () : BM Unit) s2 = .ok (u, s) := h3
+      exact (pureB_ok this).2
+    have hs1 : s1.funcs = [] ∧ s1.globalCode = [] ∧ s1.functionsCode = [] ∧ s1.fors = [] ∧ s1.endLabels = [] := by
+      have : programStart ({} : St) = .ok ((), s1) := h1
+      simp [programStart, addStartLine, Tr.modify, bind] at this
+      rw [← this]; exact ⟨rfl, rfl, rfl, rfl, rfl⟩
+    obtain ⟨cmds, n, ad, wf, sim⟩ := stmtsL_sem none p hf hn s1 s2 hs1.1 ⟨hs1.2.2.2.1, hs1.2.2.2.2⟩ h2
+    have hcode : s2.globalCode.reverse = flats none cmds := by
+      rw [ad.code, hs1.2.1, List.append_nil, List.reverse_reverse]
+    have hfc : s2.functionsCode = [] := by rw [ad.fcode]; exact hs1.2.2.1
+    have hshape : dumpLines s2 = s2.startCode.reverse ++ helperLines s2 ++ flats none cmds ++ [.label "end", .raw "endlocal & exit /B %_e%"] := by
+      simp [dumpLines, hcode, hfc]
+    have hres : Resolves (dumpLines s2) := by
+      have hi : LInv s2 := by rw [← e3]; exact program_linv p u s hrun0
+      have hifs : s2.ifs = [] := by
+        rw [ad.ifs]
+        have : programStart ({} : St) = .ok ((), s1) := h1
+        simp [programStart, addStartLine, Tr.modify, bind] at this
+        rw [← this]
+      have hends : s2.endLabels = [] := by rw [ad.ends]; exact hs1.2.2.2.2
+      have hnd : (clabels s2).Nodup := by
+        have := hi.nd
+        rw [hifs, hends] at this
+        simpa using this
+      refine resolves_of_clabels _ ((dump_clabels s2 hi.startPlain).nodup_iff.mpr hnd) ?_
+      intro l hl hp
+      have hb : third l = true := third_of_bounded (hi.bd l (Or.inl ((dump_clabels s2 hi.startPlain).mem_iff.mp hl)))
+      rw [hshape] at hp
+      simp only [List.filterMap_append, List.mem_append] at hp
+      have hfalse : third l = false := by
+        rcases hp with ((hp | hp) | hp) | hp
+        · rw [plab_startLines (fun x hx => hi.startRaw x (List.mem_reverse.mp hx))] at hp
+          simp at hp
+        · exact plab_ok (helperLines_ok s2) l hp
+        · rw [plab_flats_nil none cmds wf] at hp
+          simp at hp
+        · simp [plab] at hp
+          subst hp
+          simp [third]
+      rw [hb] at hfalse
+      simp at hfalse
+    refine ⟨s, cmds, ?_, wf, by rw [← hc, e3]; exact hres, ?_⟩
+    · rw [← hc, e3]; exact hshape
+    · intro fuel o out hr
+      unfold Src32.runProgram at hr
+      split at hr
+      · rename_i o' c' hr'
+        simp only [Option.some.injEq, Prod.mk.injEq] at hr
+        obtain ⟨rfl, rfl⟩ := hr
+        obtain ⟨ρ', ex, post⟩ := sim fuel Src.SCfg.init o' c' hr' startStore (by intro x v hx; simp [Src.SCfg.init] at hx)
+        refine ⟨⟨ρ', c'.out⟩, ex, rfl, fun ho => ?_⟩
+        show ρ' "_e" = "0"
+        rw [(post (by intro k; rw [ho]; simp)).2.1]; exact set_same _ _ _
+      · simp at hr
+  · simp at hc
+  · simp at hc
+
 /-- **The Batch script means what the program means (scalar fragment).**  For every program `p` of the scalar fragment -
     integer / boolean / string expressions, definitions and assignments (single or simultaneous), print, panic,
     if / else-if / else chains, `for` loops with init / condition / increment, `break`, `continue`, nested to any depth
@@ -163,40 +239,8 @@ theorem batch_preserves_scalar_semantics (p : Program) (hf : Src.fragStmts p = t
       ls = st.startCode.reverse ++ helperLines st ++ flats none cmds ++ [.label "end", .raw "endlocal & exit /B %_e%"] ∧
       ∀ fuel o out, Src32.runProgram fuel p = some (o, out) →
         ∃ c' : Cfg, ExecBs cmds ⟨startStore, []⟩ o c' ∧ c'.out = out ∧ (o = .normal → c'.ρ "_e" = "0") := by
-  unfold compile at hc
-  split at hc
-  · rename_i u s hrun
-    simp only [Res.ok.injEq] at hc
-    unfold evalProgram at hrun
-    obtain ⟨_, s1, h1, hrun⟩ := bindB_ok hrun
-    obtain ⟨_, s2, h2, h3⟩ := bindB_ok hrun
-    have e3 : s = s2 := by
-      have : (pure () : BM Unit) s2 = .ok (u, s) := h3
-      exact (pureB_ok this).2
-    have hs1 : s1.funcs = [] ∧ s1.globalCode = [] ∧ s1.functionsCode = [] ∧ s1.fors = [] ∧ s1.endLabels = [] := by
-      have : programStart ({} : St) = .ok ((), s1) := h1
-      simp [programStart, addStartLine, Tr.modify, bind] at this
-      rw [← this]; exact ⟨rfl, rfl, rfl, rfl, rfl⟩
-    obtain ⟨cmds, n, ad, sim⟩ := stmtsL_sem none p hf hn s1 s2 hs1.1 ⟨hs1.2.2.2.1, hs1.2.2.2.2⟩ h2
-    refine ⟨s, cmds, ?_, ?_⟩
-    · rw [← hc, e3]
-      have hcode : s2.globalCode.reverse = flats none cmds := by
-        rw [ad.code, hs1.2.1, List.append_nil, List.reverse_reverse]
-      have hfc : s2.functionsCode = [] := by rw [ad.fcode]; exact hs1.2.2.1
-      simp [dumpLines, hcode, hfc]
-    · intro fuel o out hr
-      unfold Src32.runProgram at hr
-      split at hr
-      · rename_i o' c' hr'
-        simp only [Option.some.injEq, Prod.mk.injEq] at hr
-        obtain ⟨rfl, rfl⟩ := hr
-        obtain ⟨ρ', ex, post⟩ := sim fuel Src.SCfg.init o' c' hr' startStore (by intro x v hx; simp [Src.SCfg.init] at hx)
-        refine ⟨⟨ρ', c'.out⟩, ex, rfl, fun ho => ?_⟩
-        show ρ' "_e" = "0"
-        rw [(post (by intro k; rw [ho]; simp)).2.1]; exact set_same _ _ _
-      · simp at hr
-  · simp at hc
-  · simp at hc
+  obtain ⟨st, cmds, e, _, _, sem⟩ := scalar_core p hf hn ls hc
+  exact ⟨st, cmds, e, sem⟩
 
 /-- **The outcome is unique, and it is the one the executable tree interpreter computes.**  The relation `ExecBs` is
     deterministic and the interpreter `execBs` - the function that is run on the tree rebuilt from every script, next to the
@@ -214,6 +258,46 @@ theorem batch_tree_outcome_unique (p : Program) (hf : Src.fragStmts p = true) (h
   obtain ⟨c', ex, eo, _⟩ := sem f1 o1 out1 hs
   obtain ⟨h1, h2⟩ := execBs_det ex (execBs_sound f2 cmds _ o2 c2 hx)
   exact ⟨h1, by rw [← eo, h2]⟩
+
+/-- **The LINES of the script do what the program does** - no block tree in the statement.  `LRun ls rest c o c'`
+    (`Sem/CmdLines`) is the meaning of a script as a list of lines: a simple line runs and the next line follows; a label is
+    a no-op; `goto :L` continues behind the first definition of `L` in the whole script `ls`; `if <cond> (` with a false
+    condition skips to the matching `)`, `) else (` or `) else if … (`, counting nested brackets; the last line ends the script
+    with the code in `_e`.  For every program of the scalar fragment the script is `pre ++ main ++` the two end lines, where
+    `pre` is the start code and the helper routines, and whenever the 32-bit source semantics runs the program to a normal end
+    (or to a panic), the lines `main ++ end` run, from the store the start code leaves, to exit code 0 (or 1) with the same
+    printed lines - whatever the nesting of if-chains and loops, the number of rounds, `break` and `continue`.
+    The block tree of `batch_preserves_scalar_semantics` is only the proof's way to get there (`SemB.sound_Bs`: the tree is
+    a sound reading of the lines, given that construct labels resolve - which is proved here from the label invariant
+    behind `C16.batch_construct_labels_unique` and the shapes of all other labels).
+    Still outside: that the start code leaves `startStore` and jumps over the helper routines (`pre` is not run by `LRun`),
+    and that cmd.exe reads the rendered text as these lines. -/
+theorem batch_script_lines_preserve_scalar_semantics (p : Program) (hf : Src.fragStmts p = true) (hn : simpleLoopsStmts p = true)
+    (ls : List BLine) (hc : compile p = .ok ls) :
+    ∃ (pre main : List BLine),
+      ls = pre ++ (main ++ [.label "end", .raw "endlocal & exit /B %_e%"]) ∧
+      ∀ fuel o out, Src32.runProgram fuel p = some (o, out) →
+        ∃ c' : Cfg, c'.out = out ∧
+          (o = .normal → LRun ls (main ++ [.label "end", .raw "endlocal & exit /B %_e%"]) ⟨startStore, []⟩ (.exit 0) c') ∧
+          (∀ k, o = .exit k → LRun ls (main ++ [.label "end", .raw "endlocal & exit /B %_e%"]) ⟨startStore, []⟩ (.exit k) c') := by
+  obtain ⟨st, cmds, e, wf, hres, sem⟩ := scalar_core p hf hn ls hc
+  refine ⟨st.startCode.reverse ++ helperLines st, flats none cmds, by rw [e]; simp, ?_⟩
+  intro fuel o out hr
+  obtain ⟨c', ex, eo, he⟩ := sem fuel o out hr
+  have hp : ls = (st.startCode.reverse ++ helperLines st) ++ (flats none cmds ++ [.label "end", .raw "endlocal & exit /B %_e%"]) := by
+    rw [e]; simp
+  have snd := sound_Bs hres ex wf none _ _ hp
+  refine ⟨c', eo, ?_, ?_⟩
+  · intro ho
+    subst ho
+    have h0 : asCode (c'.ρ "_e") = some 0 := by
+      rw [he rfl]
+      show asCode (Nat.repr 0) = some 0
+      simp [asCode]
+    exact snd _ _ (.plabel (.finish h0))
+  · intro k ho
+    subst ho
+    exact snd
 
 /-! non-vacuity: a program with a nested loop, `break`, `continue`, an if / else-if / else chain and a panic is in the fragment, runs in
     the source semantics, and its script runs in the line-level machine of `Sem/Cmd` to the same printed lines and exit code -/
